@@ -4,6 +4,10 @@ import json, os
 ROOT = os.path.dirname(os.path.dirname(os.path.abspath(__file__)))
 
 CHECKS = {
+ 'C03': dict(level='exploration', design='DESIGN.md §5 C03',
+   technique='CrossHair symbolic execution of evaluate_expression: typed symbolic operands per operand-kind pair against a written specification of the operator semantics; effect-logging leaves with symbolic values for order/once/laziness; alias table differential',
+   text='Per ordered pair of operand kinds (unbounded ints, short strings, null, bools, and floats/datetimes/arrays/objects/functions/regexes chosen from pools by symbolic indices) all 14 binary and both unary operators are evaluated by the real evaluator and compared with the typed operator semantics written from the language description; per expression shape with effect-logging host calls as leaves the evaluation order, at-most-once evaluation and laziness of &&, || and if() are compared with a reference evaluation for all leaf values; every documented spreadsheet-style built-in is compared with the library function it aliases on symbolic arguments and must be undefined with built-ins off.',
+   note='Trusted: specification vf/hlib/c03spec.py, C11 order spec, CrossHair/z3. Bool operands of arithmetic operators are outside the claim (implementation treats them as 0/1).'),
  'C06': dict(level='exploration', design='DESIGN.md §5 C06',
    technique='z3 lemma over the real AST of BareScriptParserError.__init__ (abstract line slices, every line length and column) + CrossHair-chosen faulty statements, end-of-input shapes and token soup parsed by the real parser',
    text='z3 decides for every line length and every column 1..n+1 that the formatted message displays line[column-1] above the caret in all three elision cases (and puts the caret one past the text for a fault at end of line). CrossHair chooses statement kind, fault, indentation, trailing blanks, prepended comment/blank/statement lines, start line, long-line padding and continuation layout; each path parses a concrete text and checks line number, line text, that the column points at the offending character and that the caret is under it; end-of-input shapes (open blocks, pending continuation) must be rejected and 3-line token soup may only raise BareScriptParserError with a usable position.',
